@@ -18,6 +18,15 @@ use crate::eval::EvalResult;
 /// a bundle with one spend of puzzle "1" whose solution is one AGG_SIG_UNSAFE condition, signed; `pad` bytes of REMARK
 /// payload make the serialised size controllable
 fn bundle(tag: u8, pad: usize) -> (SpendBundle, [u8; 32]) {
+    if tag >= 200 {
+        // a spend that shares no atom with the generator's wrapper or with the other spends except nil: puzzle `2` (the
+        // first element of the solution), solution `(())` - no conditions, unsigned
+        let puzzle = [2u8];
+        let ph = clvm_utils::tree_hash_atom(&puzzle).to_bytes();
+        let coin = Coin::new([tag; 32].into(), ph.into(), 1_000 + tag as u64);
+        let id: [u8; 32] = coin.coin_id().into();
+        return (SpendBundle::new(vec![CoinSpend::new(coin, Program::new(puzzle.as_slice().into()), vec![0xffu8, 0x80, 0x80].into())], Signature::default()), id);
+    }
     let sk = SecretKey::from_seed(&[tag; 32]);
     let pk = sk.public_key();
     let msg = [tag, 0xaa, 0xbb];
@@ -171,6 +180,12 @@ pub fn histories(thorough: bool) -> Vec<(String, Kind, Vec<Offer>)> {
         for d in (if thorough { -40i64..=400 } else { -6i64..=40 }) {
             v.push((format!("{kn}/limit{:+}", d), k, vec![(1, 0, Some(d))]));
         }
+        // spends that share nothing with the rest of the generator (the estimate has to count every cell of them)
+        for d in -2i64..=2 {
+            v.push((format!("{kn}/disjoint-limit{:+}", d), k, vec![(200, 0, Some(d))]));
+            v.push((format!("{kn}/disjoint-second-limit{:+}", d), k, vec![(201, 0, None), (200, 0, Some(d))]));
+        }
+        v.push((format!("{kn}/disjoint-many"), k, (200..=212).map(|t| (t as u8, 0, None)).collect()));
         // accepted, then a late or early reject (signed, non-identity signature), then accepted again
         for d in (if thorough { (-4i64..=60).collect::<Vec<_>>() } else { vec![-1i64, 0, 1, 2, 3, 8, 30] }) {
             v.push((format!("{kn}/accept-reject{:+}-accept", d), k, vec![(1, 0, None), (2, 0x400, Some(d)), (3, 0, None)]));
@@ -193,7 +208,8 @@ pub fn builders_ground(thorough: bool) -> EvalResult {
             match r {
                 Ok(info) => {
                     // the limit itself is admissible: an offer that lands exactly on it is accepted, one half byte over is not
-                    let want = if name.ends_with("/limit+0") || name.ends_with("/limit-1") { Some("A") } else if name.ends_with("/limit+1") { Some("r") } else { None };
+                    let want = if name.ends_with("/limit+0") || name.ends_with("/limit-1") || name.ends_with("/disjoint-limit+0") || name.ends_with("/disjoint-limit-1") { Some("A") }
+                        else if name.ends_with("/limit+1") || name.ends_with("/disjoint-limit+1") { Some("r") } else { None };
                     match want {
                         Some(w) if info != w => {
                             if res.failures.len() < 6 {
@@ -232,7 +248,8 @@ pub fn replay_builders(input: &Value) -> (bool, String) {
         if name == want {
             out = match run_history(k, &o, name.ends_with("/fresh-estimate")) {
                 Ok(info) => {
-                    let want = if name.ends_with("/limit+0") || name.ends_with("/limit-1") { Some("A") } else if name.ends_with("/limit+1") { Some("r") } else { None };
+                    let want = if name.ends_with("/limit+0") || name.ends_with("/limit-1") || name.ends_with("/disjoint-limit+0") || name.ends_with("/disjoint-limit-1") { Some("A") }
+                        else if name.ends_with("/limit+1") || name.ends_with("/disjoint-limit+1") { Some("r") } else { None };
                     match want { Some(w) if info != w => (true, format!("history {name}: decision '{info}', the limit rule says '{w}'")), _ => (false, format!("history {name}: holds")) }
                 }
                 Err(m) => (true, format!("history {name}: {m}")) };
